@@ -266,6 +266,10 @@ func streamSeg(c *Ctx) {
 	for i := 0; i < nBodies; i++ {
 		comp := r.Bool()
 		flat, _, bounds := genBody(r, comp, 6, 70)
+		if !comp && r.Chance(20) { // compressed flag although the reader has no decompressor
+			flat = append(flat, frame(1, rleCompress([]byte{4, 4, 4, 9}))...)
+			flat = append(flat, frame(0, []byte{8})...)
+		}
 		if r.Chance(30) {
 			flat = append(flat, frame([]byte{2, 3, 128, 129, 4}[r.Intn(5)], []byte("{}"))...)
 		}
@@ -600,6 +604,24 @@ func streamRoundtrip(c *Ctx) {
 	if c.Thorough() {
 		n = 8000
 	}
+	for _, declared := range []int{1, 2, 255, 256, 257, 65535, 65536, 65537, 1 << 24, 1<<24 + 1, 2 << 24, 3<<24 + 256} {
+		for _, present := range []int{0, 1} {
+			if present < declared {
+				phantomCheck(c, declared, present)
+			}
+		}
+	}
+	if c.Thorough() {
+		// real large messages around 2^24 and the 8 MiB recycle cap
+		for _, size := range []int{8<<20 - 1, 8 << 20, 8<<20 + 1, 1<<24 - 1, 1 << 24, 1<<24 + 1} {
+			payload := bytes.Repeat([]byte{0x5a}, size)
+			ys := envRecvImpl(false, 0, "eof", append(frame(0, payload), frame(0, []byte{1})...), []int{3, 5, 4096, size}, true)
+			c.Count("large-message")
+			if len(ys) != 3 || !ys[0].IsMsg || !bytes.Equal(ys[0].Msg, payload) || !ys[1].IsMsg || len(ys[1].Msg) != 1 {
+				c.Fail("roundtrip-large-message", fmt.Sprintf("one %d-byte message followed by a 1-byte message", size), showYields(ys[1:]), "a large message was not received intact")
+			}
+		}
+	}
 	for i := 0; i < n; i++ {
 		comp := r.Bool()
 		min := []int{-1, 0, 1, 3, 10, 100, 1024}[r.Intn(7)]
@@ -624,6 +646,19 @@ func streamRoundtrip(c *Ctx) {
 			extra = fmt.Sprintf("%d:%s", []int{2, 128, 2, 130}[r.Intn(4)], hx([]byte("{}")))
 		}
 		roundtripCheck(c, fmt.Sprintf("env.write comp=%d min=%d msgs=%s extra=%s", b2i(comp), min, strings.Join(msgs, ","), extra))
+	}
+}
+
+// phantomCheck: a frame that announces more bytes than the stream carries is never delivered as
+// a message (whatever the announced length looks like: multiples of 2^8, 2^16, 2^24 ...).
+func phantomCheck(c *Ctx, declared, present int) {
+	body := append(frame(0, []byte{7}), envPrefix(0, declared)...)
+	body = append(body, bytes.Repeat([]byte{5}, present)...)
+	op := recvOpLine(false, 0, "eof", body, nil, false)
+	ans := envOp(c, op)
+	c.Count("phantom")
+	if ans != "m:07 e:3:0" {
+		c.Fail("roundtrip-phantom-message", op, ans, fmt.Sprintf("an envelope announcing %d bytes with only %d present must fail, without yielding a message", declared, present))
 	}
 }
 
